@@ -96,7 +96,7 @@ class Check:
                 res = rec
         if res is None:
             raise ToolError(f'trace specification {module} did not reach the end of {trace}; see {r["out"]}')
-        lines = open(trace).read().splitlines()
+        lines = [x for x in open(trace).read().split('\n') if x]
         if res['events'] != len(lines):
             raise ToolError(f'trace length mismatch: TLC read {res["events"]} events, file has {len(lines)}')
         bad = res.get('bad', [])
@@ -158,7 +158,7 @@ def parser_trace(ctx, aspects):
             res = rec
     if res is None:
         raise ToolError(f'TraceParser did not finish; see {r["out"]}')
-    lines = open(trace).read().splitlines()
+    lines = [x for x in open(trace).read().split('\n') if x]
     mine = []
     counts = {}
     for l, why in res['bad']:
@@ -371,7 +371,7 @@ def printer_trace(ctx, aspect_layout, aspect_roundtrip):
             res = rec
     if res is None:
         raise ToolError(f'TracePrinter did not finish; see {r["out"]}')
-    lines = open(trace).read().splitlines()
+    lines = [x for x in open(trace).read().split('\n') if x]
     wanted = []
     if aspect_layout:
         wanted += [(aspect_layout, l, 'recorded text differs from JsonPrinter!Print(value, options)') for l in res['bad']]
@@ -420,6 +420,71 @@ def c11(ctx):
                          'get_fragment for 0..n+2); every small document x 15 type shapes for the conversions')
 
 
+def canon_model(ctx):
+    return ctx.mc('canonical', 'MC_Canonical', {}, {}, ['Dump', 'PermInvariant', 'Idempotent', 'Sorted'], spec='KSpec')
+
+
+def canon_trace(ctx, reasons_to_aspect):
+    n = 150 if ctx.quick else 2500
+    args = ['--n', n] + ([] if ctx.quick else ['--heavy', '1'])
+    trace, s = ctx.record('record-canon', 'canon.ndjson', args)
+    mod = '---- MODULE TRI_canon ----\nEXTENDS TraceCanon\n====\n'
+    cfg = 'SPECIFICATION TrSpec\nINVARIANT Result\nCHECK_DEADLOCK FALSE\n'
+    r = vp.tlc(f'{ctx.pid}_canon', mod, cfg, workers=1, cache=False, env={'TRACE': trace}, timeout=5000)
+    if not r['ok']:
+        raise ToolError(f'TraceCanon failed: {r["violation"]}; see {r["out"]}')
+    res = None
+    for line in vp.tlc_lines(r['out'], '"{'):
+        rec = vp.unquote_tlc(line)
+        if rec.get('k') == 'trace_result':
+            res = rec
+    if res is None:
+        raise ToolError(f'TraceCanon did not finish; see {r["out"]}')
+    lines = [x for x in open(trace).read().split('\n') if x]
+    mine, counts = [], {}
+    for l, why in res['bad']:
+        ev = json.loads(lines[l - 1])
+        if why == 'certificate':
+            raise ToolError(f'harness-side certificate is wrong at event {l} of {trace} (claimed double is not the nearest, or a rewriting '
+                            f'does not preserve meaning): {lines[l - 1][:400]}')
+        key = why.split(':')[0]
+        aspect = reasons_to_aspect.get(key)
+        counts[why] = counts.get(why, 0) + 1
+        if aspect is None:
+            continue
+        d = {'what': f'recorded canonicalization is not RFC 8785 ({why})', 'reason': why, 'event_index': l}
+        if ev['ev'] == 'canon':
+            d['input'] = {'text': ''.join(chr(c) for c in ev['text'])[:300]}
+            d['numbers'] = [{'spelling': ''.join(chr(c) for c in c_['sp']), 'rendering': ''.join(chr(c) for c in c_['r'])} for c_ in ev['nums']][:8]
+            d['value'] = ev['v'] if len(lines[l - 1]) < 3000 else None
+        else:
+            d['input'] = {'text': ev.get('btext', '')[:300]}
+            d['ta'] = ''.join(chr(c) for c in ev['ta'])[:300]
+            d['tb'] = ''.join(chr(c) for c in ev['tb'])[:300]
+        mine.append((aspect, d))
+    summ = {'label': 'canon', 'events': res['events'], 'validated': res['events'] - len(mine), 'rejected': len(mine), 'wall_s': r['wall_s'],
+            'distinct': res['events'], 'mismatch_counts': counts, 'numbers_certified': s.get('numbers', 0)}
+    ctx.traces.append(summ)
+    ctx.mismatches.extend(mine[:60])
+    ctx.samples.extend(s.get('samples', [])[:1])
+
+
+def c09(ctx):
+    r = canon_model(ctx)
+    ctx.replay([r['out']], ['C09.'])
+    canon_trace(ctx, {'number': 'C09.number', 'structure': 'C09.order', 'text': 'C09.text'})
+    ctx.extra['rule'] = ('S->I: every permutation (at every level) of 15 base I-JSON values with keys from the UTF-16 / code-point divergence region and '
+                         'numbers from a TLC-certified table; I->S: generated I-JSON values; every distinct number carries a certificate checked by TLC '
+                         'with exact integer arithmetic (nearest double, shortest and closest digits, Number::toString layout)')
+
+
+def c10(ctx):
+    r = canon_model(ctx)
+    ctx.replay([r['out']], ['C10.'])
+    canon_trace(ctx, {'idempotence': 'C10.idempotent', 'invariance': 'C10.invariance', 'index': 'C10.index', 'queries': 'C10.queries',
+                      'structure': 'C10.structure'})
+
+
 def c20(ctx):
     r = ctx.mc('kindset', 'MC_KindSet', {}, {}, ['DumpIter', 'DumpSet', 'IterSound'], spec='KSpec', workers=4)
     ctx.replay([r['out']], ['C20.'], extra_args=['--value-kinds', '1'])
@@ -430,7 +495,7 @@ def c20(ctx):
 
 CHECKS = {
     'C01': c01, 'C02': c02, 'C03': c03, 'C05': c05, 'C07': c07, 'C12': c12,
-    'C04': c04, 'C08': c08, 'C13': c13,
+    'C04': c04, 'C08': c08, 'C09': c09, 'C10': c10, 'C13': c13,
     'C06': c06, 'C11': c11, 'C14': c14, 'C15': c15,
     'C20': c20,
 }
